@@ -22,7 +22,7 @@ TRUSTED = [
     'DDP gradient averaging before step() is a documented precondition and is emulated by the harness; equal per-rank batch sizes',
     'the single-process reference is fed the per-rank batches concatenated and the averaged gradients',
 ]
-THEOREMS = ['multi_equals_single', 'ranks_agree_placement_irrelevant']
+THEOREMS = ['multi_equals_single', 'ranks_agree_placement_irrelevant', 'kaisa_is_wf', 'kaisa_transparent', 'kaisa_transparent_real_matrices']
 NOTES = 'Rounding as in C01 outside the exact stream.'
 
 
